@@ -8,6 +8,14 @@
 
   Layers: J1 operator tables · J2 leaves · J3 operators (method-style, sprite tests, receiver parentheses F41/F42) · J4 calls and
   lists · J5 statements · J6 wrappers (plain functions, class for property scripts) · composition with agent-link's `parse_link`.
+
+  Second round (agent-link-js2; the fragments `JsOkE` / `JsOkS` / `JsOkH` of lean/Drx/LinkJs.lean grew, the statements below did not
+  change): `JsOkE` now also has property lists, `the P of obj`, chunk expressions, the built-in tables of sprite / cast / sound
+  (index in `idxJsOk`: F20), `the number of … of`, `the last … of`, `the P of field`, `the mouseH` … (`key_owner`), `the floatPrecision` …,
+  method calls on a local / parameter; statements: assignment to `the P of sprite n` / `the P of <variable>`, `put … into / after /
+  before`, `delete`, `hilite`, method calls; J5t: STRUCTURED bodies (`if` / `repeat while` / `repeat with … to` / `repeat with … in`,
+  nested without bound; the condition test `_is_parenthesized` of the F160 repair: `J_cond_parenthesized`); composition `C04_link_all`
+  for scripts whose handlers are flat or structured (DrxProofs/LinkJsFlow.lean: the structured stack lemma with `with_result` tracked).
 -/
 import Drx.LinkJs
 import DrxProofs.LinkJsCompose
